@@ -150,16 +150,26 @@ func encrypt(t *rapid.T, c *encCase) []byte {
 }
 
 func decrypt(c *encCase, priv *sm2.PrivateKey, raw []byte) (pt []byte, err error, pn *hx.PanicInfo) {
+	// the ciphertext is the caller's: it is handed over in a buffer with spare capacity and must come back untouched
+	// (a second decryption of the same buffer must see the same bytes)
+	in := gen.WithCap(raw, 8, 0xC5)
+	if c.form == "asn1" {
+		in = gen.WithCap(asn1Form(raw), 8, 0xC5)
+	}
+	before := append([]byte{}, in...)
 	pn = hx.Try(func() {
 		switch c.form {
 		case "asn1":
-			pt, err = priv.DecryptAsn1(asn1Form(raw))
+			pt, err = priv.DecryptAsn1(in)
 		case "decrypter":
-			pt, err = priv.Decrypt(nil, raw, nil)
+			pt, err = priv.Decrypt(nil, in, nil)
 		default:
-			pt, err = sm2.Decrypt(priv, raw, c.mode)
+			pt, err = sm2.Decrypt(priv, in, c.mode)
 		}
 	})
+	if pn == nil && (!bytes.Equal(in, before) || !gen.SpareIntact(in, 0xC5)) {
+		pn = &hx.PanicInfo{Val: "Decrypt MODIFIED the caller's ciphertext buffer (or wrote behind it)", Stack: ""}
+	}
 	return
 }
 
